@@ -56,6 +56,15 @@ def build_base(kind):
     raise ValueError(kind)
 
 
+PREFIT_GRIDS = {
+    "naive": {"strategy": ["mean", "drift"], "window_length": [3, 5]},
+    "trend": {"degree": [2, 3], "with_intercept": [False]},
+    "pipeline": {"deseasonalizer__sp": [2], "forecaster__strategy": ["mean", "drift"], "forecaster__window_length": [3, 4]},
+    "multiplex": {"selected_forecaster": ["trend", "naive"], "trend__degree": [2, 3], "naive__strategy": ["drift"], "naive__window_length": [4]},
+    "reduce": {"window_length": [4, 6]},
+}
+
+
 def oracle(case, ctx):
     discs = []
     n = case["n"]
@@ -90,14 +99,14 @@ def oracle(case, ctx):
     col = "test_" + metric.name
     exp_scores = []
     for p in cands:
-        f = clone(base).set_params(**p)
+        f = build_base(case["base"]).set_params(**p)
         r = sut(evaluate, f, build_cv(case["cv"]), y, X, strategy=strategy, scoring=metric)
         if isinstance(r, Raised):
             # evaluate refuses a candidate the generator builds to be valid (it never does on the unchanged tree)
             return [D("independent_evaluate_raised:%s@%s" % (r.type, r.where), "candidate %s: %s" % (p, r.msg))]
         # ... and what the scores ARE: the plain metric function on each fold's forecasts
         # (return_data gives y_test / y_pred of the same run)
-        rd = sut(evaluate, clone(base).set_params(**p), build_cv(case["cv"]), y, X, strategy=strategy, scoring=metric, return_data=True)
+        rd = sut(evaluate, build_base(case["base"]).set_params(**p), build_cv(case["cv"]), y, X, strategy=strategy, scoring=metric, return_data=True)
         if isinstance(rd, Raised):
             return [D("independent_evaluate_raised:%s@%s" % (rd.type, rd.where), "candidate %s (return_data=True): %s" % (p, rd.msg))]
         raw = raw_metric(case["metric"])
@@ -108,6 +117,18 @@ def oracle(case, ctx):
         exp_scores.append(float(r[col].mean()))
     fh = case["cv"]["fh"]
     yc = y.copy()
+    if case.get("prefit") and case["metric"] != "nanflat":  # (a search whose scores are all undefined has no winner)
+        # the same tuner object (and the caller's base forecaster inside it) ran another search
+        # before: other data, another grid that sets parameters this search does not mention.
+        # Every candidate of this search still starts from the base forecaster as configured.
+        g0 = PREFIT_GRIDS[case["base"]]
+        y0 = gen.build_series(vals[::-1], case["start"], case["index_kind"])
+        tuner.set_params(**{("param_grid" if case["search"] == "grid" else "param_distributions"): g0})
+        r0 = sut(tuner.fit, y0, None if X is None else X.copy(), fh)
+        if isinstance(r0, Raised):
+            return [D("tuner_fit_raised:%s@%s" % (r0.type, r0.where), "%s earlier search with grid=%s: %s" % (case["base"], g0, r0.msg))]
+        tuner.set_params(**{("param_grid" if case["search"] == "grid" else "param_distributions"): grid})
+        ctx.label("tuner_searched_before")
     r = sut(tuner.fit, yc, None if X is None else X.copy(), fh)
     ctx.label(case["base"])
     ctx.label(case["search"])
@@ -160,7 +181,7 @@ def oracle(case, ctx):
     if dict(tuner.best_params_) != dict(cands[bi]):
         discs.append(D("best_params", "best_params_ %s row %s" % (tuner.best_params_, cands[bi])))
     if case["refit"]:
-        direct = clone(base).set_params(**cands[bi])
+        direct = build_base(case["base"]).set_params(**cands[bi])
         direct.fit(y, None if X is None else X.copy(), fh)
         def xf(c):
             # future values of the exogenous variable for every step up to the furthest one
@@ -231,7 +252,7 @@ def grids(draw, base, search):
         return [{"strategy": ["mean"], "sp": draw(_subset([2, 3])), "window_length": [6]},
                 {"strategy": ["last", "mean"]}]
     if base == "trend":
-        return {"degree": draw(_subset([0, 1, 2, 3], 2)), "with_intercept": [True]}
+        return dict({"degree": draw(_subset([0, 1, 2, 3], 2))}, **({"with_intercept": [True]} if draw(st.booleans()) else {}))
     if base == "reduce":
         return {"window_length": draw(_subset([2, 3, 4, 5], 2))}
     if base == "pipeline":
@@ -265,6 +286,7 @@ def cases(draw):
         "refit": draw(st.sampled_from([True, True, False])),
         "strategy": draw(st.sampled_from(["refit", "refit", "update"])),
         "scale": draw(st.sampled_from([1.0, 1.0, 1e-6, 1e-4, 1e-3, 1e4])),
+        "prefit": draw(st.integers(0, 2)) == 0,
     }
 
 
